@@ -58,6 +58,20 @@ def sudoku_dead_ends(cases=((0, 0, 3), (4, 4, 5), (8, 8, 7), (2, 6, 1))) -> Any:
     return DatabaseGenerator(np.stack(boards))
 
 
+# a small, non-square (9 rows x 11 columns), fully enclosed PacMan maze with the markers the generator needs:
+# 4 ghosts G, 4 initial ghost targets T, 4 scatter targets S, power-ups O, the player P
+PACMAN_SMALL = [
+    "XXXXXXXXXXX",
+    "XS   X   SX",
+    "X XX X XX X",
+    "XO T   T OX",
+    "X XXGGGXX X",
+    "XO  TGT  OX",
+    "X XX X XX X",
+    "XS   P   SX",
+    "XXXXXXXXXXX",
+]
+
 SOKOBAN_OPEN_LEVELS = (
     # no outer wall ring ('*' = box standing on a target): pushes off the top / left edge, box into box
     ("  $  .    ",
